@@ -338,8 +338,11 @@ func VerifC19_GetSelectedVersions() {
 // ---- versioned file names <-> (identifier, version) without loss ----
 
 func VerifC19_FileNames() {
-	ids := []string{"a/b.zip", "a/b", "b.exe", "all/intel/geoip/geoipv4.mmdb.gz", "x/assets.tar.gz", "d/.hidden", "d/name.", "deep/er/path/file-name_x.dat"}
-	versioned := []string{"a/b_v1-2-3.zip", "a/b_v1-2-3", "b_v1-2-3.exe", "all/intel/geoip/geoipv4_v1-2-3.mmdb.gz", "x/assets_v1-2-3.tar.gz", "d/_v1-2-3.hidden", "d/name_v1-2-3.", "deep/er/path/file-name_x_v1-2-3.dat"}
+	ids := []string{"a/b.zip", "a/b", "b.exe", "all/intel/geoip/geoipv4.mmdb.gz", "x/assets.tar.gz", "d/.hidden", "d/name.", "deep/er/path/file-name_x.dat",
+		// directories that carry a version tag themselves (the same as the file's, another one)
+		"pkg/bundle_v1-2-3/app.zip", "pkg_v0-10-0/sub_v1-2-3-beta/app"}
+	versioned := []string{"a/b_v1-2-3.zip", "a/b_v1-2-3", "b_v1-2-3.exe", "all/intel/geoip/geoipv4_v1-2-3.mmdb.gz", "x/assets_v1-2-3.tar.gz", "d/_v1-2-3.hidden", "d/name_v1-2-3.", "deep/er/path/file-name_x_v1-2-3.dat",
+		"pkg/bundle_v1-2-3/app_v1-2-3.zip", "pkg_v0-10-0/sub_v1-2-3-beta/app_v1-2-3"}
 	vers := []string{"1.2.3", "0.10.0", "20.1.2", "1.2.3-beta", "0.3.1-b"}
 	i := rt.Choice("id", len(ids))
 	v := vers[rt.Choice("version", len(vers))]
